@@ -420,6 +420,27 @@ pub fn run(tier: Tier) -> i32 {
             }
         }
     }
+    // notable code points (byte order mark, no-break / zero-width / ideographic spaces, line and paragraph
+    // separators, NEL, VT, FF, soft hyphen, replacement character, NUL, US, DEL) inserted at every position of a few
+    // sentences -- before, between and inside tokens, inside each quoted form
+    {
+        let points = ['\u{feff}', '\u{a0}', '\u{200b}', '\u{2028}', '\u{2029}', '\u{85}', '\u{b}', '\u{c}', '\u{ad}', '\u{180e}', '\u{3000}', '\u{2000}', '\u{200e}', '\u{fffd}', '\u{0}', '\u{1f}', '\u{7f}', '\u{1680}', '\u{205f}', '\u{2060}', '\u{fffe}'];
+        let sentences = ["a", "a.b", "a[0]", "a[1:2]", "`1`", "`true`", "`null`", "`[1, 2]`", "`{\"a\": 1}`", "`\"s\"`", "'r'", "\"q\"", "a || b", "length(a)", "a[?b == `1`]", "{a: b}", "[a, b]", "&a", "*", "@", "!a", "a | b"];
+        for sent in sentences {
+            let idx: Vec<usize> = sent.char_indices().map(|(i, _)| i).chain(std::iter::once(sent.len())).collect();
+            for &i in &idx {
+                for c in points {
+                    let mut t = String::with_capacity(sent.len() + 4);
+                    t.push_str(&sent[..i]);
+                    t.push(c);
+                    t.push_str(&sent[i..]);
+                    st.states += 1;
+                    st.transitions += 1;
+                    decide(&t, ref_sentence(&t), "notable-code-points", &mut st);
+                }
+            }
+        }
+    }
     // nesting ladder: sentences of every nesting family must compile at any depth the stack allows
     {
         let h = std::thread::Builder::new()
@@ -487,7 +508,7 @@ pub fn run(tier: Tier) -> i32 {
         st.outcomes.get("sentence/accepted").cloned().unwrap_or(0) > 1000
             && st.outcomes.get("non-sentence/parse-error").cloned().unwrap_or(0) > 1000,
     );
-    rep.rule = "every token sequence over T22 up to the length bound (prefix-tree DFS, incremental Earley chart), every character string over Sigma28 up to its bound, every sequence over T32+extreme numbers up to its bound, and every viable prefix followed by k arbitrary tokens; each rendered string is compiled by the implementation and decided by R-lex + Earley membership. non-trivial = the string is a sentence of the grammar Numeral family: zero padding, many digits, the i32 edges and non-ASCII numeric code points (superscript, Arabic-Indic, full-width, Roman, fraction, mathematical, circled) alone / after '-' / next to ASCII digits, in six bracket forms.".into();
+    rep.rule = "every token sequence over T22 up to the length bound (prefix-tree DFS, incremental Earley chart), every character string over Sigma28 up to its bound, every sequence over T32+extreme numbers up to its bound, and every viable prefix followed by k arbitrary tokens; each rendered string is compiled by the implementation and decided by R-lex + Earley membership. non-trivial = the string is a sentence of the grammar Numeral family: zero padding, many digits, the i32 edges and non-ASCII numeric code points (superscript, Arabic-Indic, full-width, Roman, fraction, mathematical, circled) alone / after '-' / next to ASCII digits, in six bracket forms. Notable code points (byte order mark, no-break / zero-width / ideographic spaces, line and paragraph separators, NEL, VT, FF, soft hyphen, U+FFFD, NUL, US, DEL, ...: 21) inserted at every position of 22 sentences.".into();
     rep.bounds = json!({"token_len": l, "char_len": k, "class_equiv_len": dlen, "deviation": {"viable_prefix_len": lv, "extra_tokens": kk, "thorough_extra": "(5,3)"}, "alphabet_T22": a22.texts, "sigma": SIGMA.iter().collect::<String>()});
     rep.assumptions = vec![
         "grammar = published ABNF at token level (DESIGN 3.1); lexical rules as in the C03 statement".into(),
